@@ -5,6 +5,8 @@ CONSTANTS
   GPUs = {1, 2}
   PageDev <- MCPageDev2
   PhysPage <- MCPhys
+  SpareDev = <<>>
+  MaxRemap = 0
   Bufs <- MCBufs1
   Ctxs = {1}
   Queues = {1}
